@@ -30,9 +30,16 @@ def exec_retrieve(job):
     rec = dict(fn=job["fn"], kind="retrieve", mode=mode, n=n, Lm=c03.lm_of(job["K"]),
                raised="", malformed="", D=[], B=[], P=[], paths=[])
     # same matrix, other argument dtype / memory layout (rel_common; Lm above stays exact)
-    A = rc.as_variant(c03.input_of(job["K"], mode), job.get("dtype", "float64"), job.get("layout", "C"))
+    # magnitude family (seed round 7, see c03.exec_job): lengths times 2**pow2, exact; SPL divided back
+    sc = 2.0 ** job["pow2"] if job.get("pow2") else 1.0
+    A0 = c03.input_of(job["K"], mode)
+    if sc != 1.0:
+        A0 = A0 * sc if mode in ("len", "bin") else A0 / sc
+    A = rc.as_variant(A0, job.get("dtype", "float64"), job.get("layout", "C"))
     try:
         SPL, hops, Pmat = bct.distance_wei_floyd(A, transform=c03.TRANSFORM[mode])
+        if sc != 1.0:
+            SPL = np.asarray(SPL, dtype=float) / sc
         if job.get("out_layout"):           # hops / Pmat handed on as Fortran-ordered arrays
             hops, Pmat = np.asfortranarray(hops), np.asfortranarray(Pmat)
         paths = [[bct.retrieve_shortest_path(s, t, hops, Pmat) for t in range(n)] for s in range(n)]
@@ -227,6 +234,26 @@ def build_jobs(ctx):
         K = c03.code_matrix(rng, n, edges, und, "len")          # codes 1..3
         K = [[min(v, 2) for v in row] for row in K]             # -> k in {1,2}
         jobs.append(retrieve_job(K, "log", "log-ties", ("float64", rng.choice(rc.LAYOUTS)), rng.randrange(2)))
+    # ---- magnitude family (seed round 7): weighted retrieve jobs again with every length scaled by
+    #      2**-27..2**-40, plus dense tie-poor inputs (20..30 nodes, lengths 1..40) where later pivots
+    #      improve known routes by small amounts
+    cand = [j for j in jobs if j["kind"] == "retrieve" and j["mode"] in ("len", "inv")
+            and j.get("dtype", "float64") == "float64"]
+    for j in inputs.sample(rng, cand, 150 if q else 1500):
+        jobs.append(dict(j, pow2=-rng.choice([27, 30, 34, 40]), src_kind=j["src_kind"] + "-tiny"))
+    for k in range(12 if q else 80):
+        n = rng.randint(10, 20)
+        und = rng.random() < 0.5
+        K = [[-1] * n for _ in range(n)]
+        for i in range(n):
+            for jx in range(n):
+                if (i < jx if und else i != jx) and rng.random() < 0.6:
+                    K[i][jx] = rng.randint(1, 40)
+                    if und:
+                        K[jx][i] = K[i][jx]
+        mode = "len"          # (1/k is not exact for k = 3, 5, ...: 'inv' keeps the power-of-two codes)
+        jobs.append(dict(retrieve_job(K, mode, "dense-tiny"), pow2=-rng.choice([27, 30, 34, 40])))
+        jobs.append(retrieve_job(K, mode, "dense"))
     # ---- navigation_wu: enumerated graphs x nodal distances x finite max_hops
     for kind, n, cap, reps in [("und", 4, None, 4 if q else 40), ("dir", 3, None, 3 if q else 27),
                                ("dir", 4, 150 if q else 2000, 1), ("und", 5, 100 if q else None, 1)]:
